@@ -91,7 +91,16 @@ where
             })
             .reduce(<V>::min)
             .unwrap();
-        let b = MArr2::from_fn(|d| p[d] - a[d] * u);
+        // the cell that attains the minimum has the joint mass b0*b1 (often exactly 0): `p[d]` and `a[d] * u` round differently and
+        // the residue of either sign is clamped at zero, as in deduction, inversion and uncertainty maximisation
+        let b = MArr2::from_fn(|d| {
+            let b = p[d] - a[d] * u;
+            if b < V::zero() {
+                V::zero()
+            } else {
+                b
+            }
+        });
         Opinion::new(b, u, a)
     }
 }
@@ -115,7 +124,16 @@ where
             })
             .reduce(<V>::min)
             .unwrap();
-        let b = MArr3::from_fn(|d| p[d] - a[d] * u);
+        // the cell that attains the minimum has the joint mass b0*b1 (often exactly 0): `p[d]` and `a[d] * u` round differently and
+        // the residue of either sign is clamped at zero, as in deduction, inversion and uncertainty maximisation
+        let b = MArr3::from_fn(|d| {
+            let b = p[d] - a[d] * u;
+            if b < V::zero() {
+                V::zero()
+            } else {
+                b
+            }
+        });
         Opinion::new(b, u, a)
     }
 }
